@@ -45,10 +45,12 @@ META = {
         "line argument, normalised to kinded terms + constant, has the constant the convention needs; AFTER sites inside a function that "
         "receives a content offset must add it; (c) a .line / get_source_and_line / line= sink never gets L1+OFF without +1; (d) in a "
         "function that receives a content offset, a line built from the directive line plus an index or constant includes that offset. "
-        "R3 shift-once: token.map is written only by _render_tokens (+1) and nested_render_text (+lineno) or a private helper only they "
-        "call; both ends by the same amount (list, comprehension, any operand order), guarded by the token's map only, the loop (or helper "
-        "call) completes exactly once before the list is handed on, the rendered list is freshly parsed, _render_tokens has exactly its two "
-        "callers, and token content gets no extra leading lines. R4: no +/- of two line counts where one string went through "
+        "R3 shift-once: token.map is written only by _render_tokens and nested_render_text or a private helper only they call; each "
+        "shift moves both ends by the same amount (list, comprehension, any operand order), is guarded by the token's map only and its "
+        "loop (or helper call) completes exactly once before the list is handed on; the TOTAL shift along each entry path, computed as a "
+        "linear form with parameters substituted through the calls (keyword arguments and defaults included), is 1 from render() and "
+        "lineno + 1 from nested_render_text() however the two passes are split or merged; the rendered list is freshly parsed, "
+        "_render_tokens has exactly its two callers, and token content gets no extra leading lines. R4: no +/- of two line counts where one string went through "
         "'\\n'.join -> splitlines (body_offset and package-wide). R5 source path: every store to .source / ['source'] and every warning "
         "location (Sphinx location=(source, line), source= of system messages) is path-kind and reads the swappable document path (a copy "
         "cached on the renderer only if the include mock swaps it too; a docname is not a path); the include mock - in run() or in a "
@@ -1207,7 +1209,7 @@ def _shift_amount(value: ast.expr, tok: str) -> tuple[str, str] | None:
 
 @rule(R3)
 def r3_shift_once(corpus: Corpus, rep: Report, tier: str):
-    rep.rule(R3, "token.map is shifted only by _render_tokens (+1) and nested_render_text (+lineno), both ends, exactly once per token list; token content gets no extra leading lines")
+    rep.rule(R3, "token.map is written only by _render_tokens / nested_render_text (or their private helpers), both ends alike, once per list; the total shift is 1 from render() and lineno + 1 from nested_render_text(); token content gets no extra leading lines")
     rt = corpus.func(RENDER_TOKENS)
     nrt = corpus.func(NESTED_RENDER)
     allowed = {rt.fq, nrt.fq}
@@ -2531,6 +2533,11 @@ def mutants(corpus: Corpus):
     f = base.func("DocutilsRenderer._render_tokens")
     c = find_node(f, lambda n: isinstance(n, ast.BinOp) and unparse(n) == "token.map[1] + 1")
     add("c04-map-end-not-shifted", R3, base, c, "token.map[1]", "_render_tokens", canary=True)
+    stc = find_stmt(f, lambda s: isinstance(s, ast.Assign) and unparse(s.targets[0]) == "token.map" and isinstance(s.value, (ast.List, ast.Tuple)))
+    if stc is not None and unparse(stc.value) == "[token.map[0] + 1, token.map[1] + 1]":
+        add("c04-one-based-shift-doubled", R3, base, stc.value, "[token.map[0] + 2, token.map[1] + 2]", "total map shift")
+    else:
+        out.append(("c04-one-based-shift-doubled", "_render_tokens no longer shifts by the literal 1; covered by the nested-shift mutants"))
     iff = find_node(f, lambda n: isinstance(n, ast.If) and unparse(n.test) == "not token.map")
     add("c04-shift-skipped-for-hidden-tokens", R3, base, iff.test if iff is not None else None, "not token.map or token.hidden", "guarded")
     f = base.func("DocutilsRenderer.nested_render_text")
